@@ -108,6 +108,7 @@ static void mode_c12(const Args &a) {
         bool use_int = r.chance(0.3);
         GraphSpec s;
         if (!a.replay.empty()) { std::ifstream in(a.replay); if (!parse_spec(in, s)) { emit_harness_failure("cannot parse replay spec"); exit(2); } use_int = a.gets("wtype", "double") == "int"; }
+        else if (a.geti("large", 1) && r.chance(0.012)) s = gen_large_distinct(r);
         else { GenOpts o; o.max_n = max_n; o.tie_bias = 0.85; o.int_only = use_int; s = gen_graph(r, o); }
         CaseOut co(i);
         long p0 = pairs;
@@ -136,13 +137,13 @@ static void mode_c13(const Args &a) {
         else {
             GenOpts o; o.max_n = (int) r.range(4, max_n); o.tie_bias = 1.0;
             int pick = (int) r.below(6);
-            if (r.chance(0.03)) { // degree thresholds: a hub of degree 250..700 on a rim, with pendant leaves and a few separate cycles
+            if (a.geti("large", 1) && r.chance(0.03)) { // degree thresholds: a hub of degree 250..700 on a rim, with pendant leaves and a few separate cycles
                 Topo t; int rim = (int) r.range(100, 400); int leaves = (int) r.range(0, 320); int n = 1 + rim + leaves;
                 for (int v = 1; v <= rim; v++) { add_e(t, 0, v); if (r.chance(0.9)) add_e(t, v, v % rim + 1); }
                 for (int v = rim + 1; v < n; v++) add_e(t, 0, v);
                 int extra = (int) r.range(0, 3); for (int q = 0; q < extra; q++) { int len = (int) r.range(3, 6); int first = n; for (int z = 0; z < len; z++) { add_e(t, n, z + 1 < len ? n + 1 : first); n++; } }
                 dedup(t); s.n = n; for (auto &e : t) s.edges.push_back({e.first, e.second, 1}); r.shuffle(s.edges); s.family = "high_degree_hub";
-            } else if (r.chance(0.002)) { // size thresholds: ~70 000 vertices, a hub of degree > 65 536, many small cycles
+            } else if (a.geti("large", 1) && r.chance(0.002)) { // size thresholds: ~70 000 vertices, a hub of degree > 65 536, many small cycles
                 Topo t; int n = (int) r.range(66000, 72000); for (int v = 1; v < n; v++) add_e(t, 0, v); for (int v = 1; v + 1 < n; v += (int) r.range(2, 40)) add_e(t, v, v + 1);
                 dedup(t); s.n = n; for (auto &e : t) s.edges.push_back({e.first, e.second, 1}); s.family = "huge_star_with_cycles";
             } else
@@ -264,6 +265,7 @@ static void mode_c14(const Args &a) {
         bool use_int = r.chance(0.3);
         GraphSpec s;
         if (!a.replay.empty()) { std::ifstream in(a.replay); if (!parse_spec(in, s)) { emit_harness_failure("cannot parse replay spec"); exit(2); } use_int = a.gets("wtype", "double") == "int"; }
+        else if (a.geti("large", 1) && r.chance(0.01)) s = gen_large_distinct(r);
         else { GenOpts o; o.max_n = max_n; o.tie_bias = 0.65; o.int_only = use_int; s = gen_graph(r, o); }
         CaseOut co(i);
         long c0 = ncand;
@@ -287,7 +289,7 @@ static void mode_c16(const Args &a) {
         Rng r(case_seed(a.seed, "C16", i));
         GraphSpec s;
         if (!a.replay.empty()) { std::ifstream in(a.replay); if (!parse_spec(in, s)) { emit_harness_failure("cannot parse replay spec"); exit(2); } }
-        else if (r.chance(0.002)) { // size thresholds (narrow counters): ~70 000 vertices in a few thousand components
+        else if (a.geti("large", 1) && r.chance(0.002)) { // size thresholds (narrow counters): ~70 000 vertices in a few thousand components
             int n = (int) r.range(66000, 72000); s.n = n; for (int v = 0; v + 1 < n; v++) if (!r.chance(0.05)) s.edges.push_back({v, v + 1, 1}); int extra = (int) r.range(1, 300); for (int q = 0; q < extra; q++) { int a_ = (int) r.below(n - 5); s.edges.push_back({a_, a_ + 3, 1}); } s.family = "huge_paths_with_chords"; }
         else { GenOpts o; o.max_n = (int) r.range(0, max_n); o.tie_bias = 1.0; s = gen_graph(r, o); }
         CaseOut co(i);
